@@ -35,36 +35,69 @@ Qed.
 (* what the re-arm counters still allow: sum over the replicas of (maxRearm - rearmed), maxRearm = replicas - 1 *)
 Fixpoint slack (L : nat) (v : list nat) : nat := match v with [] => 0 | x :: r => (L - x) + slack L r end.
 Definition unarmed (c : cfg) (s : state) : nat := slack (length (c_reps c) - 1) (rearmed_v s).
-Definition aux (s : state) := (rearmed_v s, bo_total s, bo_excl s).
+Definition aux (s : state) := (rearmed_v s, bo_total s, bo_excl s, dead s, killed s).
+(* nobody cancels or kills: then an error can only come from the budget *)
+Definition calm (c : cfg) (s : state) : Prop := c_cancel c = TNever /\ c_kill c = TNever /\ dead s = false /\ killed s = false.
 Definition adv (c : cfg) (s s' : state) (evs : list event) : Prop :=
-  bo_total s' = bo_total s + tot evs /\ bo_excl s' = bo_excl s + exc evs /\ bo_ok c (bo_total s) (bo_excl s) evs.
+  bo_total s' = bo_total s + tot evs /\ bo_excl s' = bo_excl s + exc evs /\ bo_ok c (bo_total s) (bo_excl s) evs /\ (calm c s -> calm c s').
 
+Ltac calmtac :=
+  match goal with
+  | X : calm ?c ?s -> calm ?c ?s2, Y : calm ?c ?s |- _ => let Z := fresh in pose proof (X Y) as Z; destruct Z as (? & ? & ? & ?); assumption
+  | Y : calm ?c ?s |- _ => destruct Y as (? & ? & ? & ?); assumption
+  end.
+
+Lemma calm_aux c s s' : aux s' = aux s -> calm c s -> calm c s'.
+Proof. unfold aux, calm. intros H; injection H as _ _ _ -> ->. auto. Qed.
 Lemma adv_nil c s s' : aux s' = aux s -> adv c s s' [].
-Proof. unfold aux, adv. intros H; injection H as _ -> ->. cbn. repeat split; lia. Qed.
+Proof. intros H. pose proof (calm_aux c s s' H). unfold aux, adv in *. injection H as _ -> -> _ _. cbn. split; [lia|]. split; [lia|]. split; [exact I|assumption]. Qed.
 
-Lemma backoff_some c k s s' e : backoff c k s = Some (s', e) ->
+Lemma backoff_ok c k s s' e : backoff c k s = BoOk s' e ->
   exists sl, e = EBo k sl /\ min_step k <= sl /\ refuse c k (bo_total s) (bo_excl s) = false /\
-             bo_total s' = bo_total s + sl /\ bo_excl s' = bo_excl s + (if excluded k then sl else 0) /\ rearmed_v s' = rearmed_v s.
+             bo_total s' = bo_total s + sl /\ bo_excl s' = bo_excl s + (if excluded k then sl else 0) /\ rearmed_v s' = rearmed_v s /\
+             (calm c s -> calm c s').
 Proof.
-  unfold backoff. change ((0 <? c_max_sleep c) && budget_exceeded c k s) with (refuse c k (bo_total s) (bo_excl s)).
-  destruct (refuse c k _ _) eqn:R; [discriminate|]. destruct (pop 0 (orc_s s)) as [sl0 rest].
-  intros H. exists (N.max sl0 (min_step k)). destruct (excluded k); injection H as <- <-; cbn; repeat split; auto; lia.
+  unfold backoff. destruct (dead s) eqn:D; [discriminate|].
+  change ((0 <? c_max_sleep c) && budget_exceeded c k s) with (refuse c k (bo_total s) (bo_excl s)).
+  destruct (refuse c k _ _) eqn:R; [discriminate|]. destruct (pop 0 (orc_s s)) as [sl0 rest]. cbv zeta.
+  match goal with |- (if ?b then _ else _) = _ -> _ => destruct b eqn:K end; [discriminate|].
+  intros H. exists (N.max sl0 (min_step k)). injection H as <- <-.
+  destruct (excluded k); cbn; repeat split; auto; try lia;
+    match goal with Y : calm _ _ |- _ => destruct Y as (C1 & C2 & C3 & C4) end; cbn; rewrite ?C1, ?C2, ?C4; auto.
 Qed.
-Lemma backoff_none c k s : backoff c k s = None -> refuse c k (bo_total s) (bo_excl s) = true.
+Lemma backoff_refused c k s : backoff c k s = BoRefused -> dead s = true \/ refuse c k (bo_total s) (bo_excl s) = true.
 Proof.
-  unfold backoff. change ((0 <? c_max_sleep c) && budget_exceeded c k s) with (refuse c k (bo_total s) (bo_excl s)).
-  destruct (refuse c k _ _); auto. destruct (pop 0 (orc_s s)). destruct (excluded k); discriminate.
+  unfold backoff. destruct (dead s); [auto|].
+  change ((0 <? c_max_sleep c) && budget_exceeded c k s) with (refuse c k (bo_total s) (bo_excl s)).
+  destruct (refuse c k _ _); auto. destruct (pop 0 (orc_s s)). cbv zeta.
+  match goal with |- (if ?b then _ else _) = _ -> _ => destruct b end; discriminate.
 Qed.
+Lemma backoff_kill c k s e : backoff c k s = BoKilled e ->
+  exists sl, e = EBo k sl /\ min_step k <= sl /\ refuse c k (bo_total s) (bo_excl s) = false /\ ~ calm c s.
+Proof.
+  unfold backoff. destruct (dead s) eqn:D; [discriminate|].
+  change ((0 <? c_max_sleep c) && budget_exceeded c k s) with (refuse c k (bo_total s) (bo_excl s)).
+  destruct (refuse c k _ _) eqn:R; [discriminate|]. destruct (pop 0 (orc_s s)) as [sl0 rest]. cbv zeta.
+  match goal with |- (if ?b then _ else _) = _ -> _ => destruct b eqn:K end; [|discriminate].
+  intros H. exists (N.max sl0 (min_step k)). injection H as <-. repeat split; auto; try lia.
+  intros (C1 & C2 & C3 & C4). cbn in K. rewrite C2, C4 in K. discriminate.
+Qed.
+
+(* what a refusal means when nobody cancels or kills *)
+Definition why (c : cfg) (s : state) (r : result) (evs : list event) : Prop :=
+  calm c s -> r = RError -> evs = [] /\ spent c (bo_total s) (bo_excl s).
 
 Lemma with_backoff_bo c k s0 r0 :
   match with_backoff c k s0 r0 with
   | HRetry s' evs => adv c s0 s' evs /\ rearmed_v s' = rearmed_v s0 /\ n_rearms evs = 0%nat
-  | HDone r evs => evs = [] /\ r = r0 /\ refuse c k (bo_total s0) (bo_excl s0) = true
+  | HDone r evs => r = r0 /\ bo_ok c (bo_total s0) (bo_excl s0) evs /\ n_rearms evs = 0%nat /\ why c s0 r evs
   end.
 Proof.
-  unfold with_backoff. destruct (backoff c k s0) as [[s' e]|] eqn:B.
-  - apply backoff_some in B as (sl & -> & M & R & T & E & V). unfold adv. cbn [tot exc bo_ok]. repeat split; auto; lia.
-  - apply backoff_none in B. auto.
+  unfold with_backoff. destruct (backoff c k s0) as [s' e| |e] eqn:B.
+  - apply backoff_ok in B as (sl & -> & M & R & T & E & V & C). unfold adv. cbn [tot exc bo_ok]. repeat split; auto; try lia; try calmtac.
+  - apply backoff_refused in B. split; [reflexivity|]. split; [exact I|]. split; [reflexivity|]. intros (_ & _ & D & _) _. split; auto.
+    destruct B as [B|B]; [congruence|now exists k].
+  - apply backoff_kill in B as (sl & -> & M & R & NC). cbn [bo_ok]. split; [reflexivity|]. split; [auto|]. split; [reflexivity|]. intros C. contradiction.
 Qed.
 
 Ltac ifs := repeat match goal with |- context [if ?b then _ else _] => destruct b eqn:? end.
@@ -95,32 +128,51 @@ Qed.
 Definition sres_bo (c : cfg) (s : state) (x : sres) : Prop :=
   match x with
   | SSent s' t evs => adv c s s' evs /\ rearmed_v s' = rearmed_v s
-  | SDone r evs => bo_ok c (bo_total s) (bo_excl s) evs /\ (r = RError -> evs = [] /\ spent c (bo_total s) (bo_excl s))
+  | SDone r evs => bo_ok c (bo_total s) (bo_excl s) evs /\ why c s r evs
   end.
+
+Lemma why_aux c s0 s r evs : aux s0 = aux s -> why c s0 r evs -> why c s r evs.
+Proof.
+  intros H W C R. assert (C0 : calm c s0) by (apply (calm_aux c s s0); auto).
+  destruct (W C0 R) as [-> S]. split; auto. unfold aux in H. injection H as _ T E _ _. now rewrite <- T, <- E.
+Qed.
 
 Lemma no_candidate_bo c s0 s : aux s0 = aux s -> sres_bo c s (no_candidate c s0).
 Proof.
-  unfold aux. intros H; injection H as V T E. unfold no_candidate, sres_bo. destruct (any_pending s0); [|cbn; split; [auto|discriminate]].
-  destruct (backoff c BoBusy s0) as [[s' e]|] eqn:B.
-  - apply backoff_some in B as (sl & -> & M & R & _). rewrite T, E in R. cbn [bo_ok]. split; [auto|discriminate].
-  - apply backoff_none in B. rewrite T, E in B. split; [exact I|]. intros _. split; [reflexivity|]. now exists BoBusy.
+  intros A. assert (T : bo_total s0 = bo_total s /\ bo_excl s0 = bo_excl s) by (unfold aux in A; injection A as _ T E _ _; auto).
+  destruct T as [T E]. unfold no_candidate, sres_bo. destruct (any_pending s0); [|cbn; split; [auto|intros _; discriminate]].
+  destruct (backoff c BoBusy s0) as [s' e| |e] eqn:B.
+  - apply backoff_ok in B as (sl & -> & M & R & _). rewrite T, E in R. cbn [bo_ok]. split; [auto|intros _; discriminate].
+  - apply backoff_refused in B. split; [exact I|]. apply (why_aux c s0 s _ _ A). intros (_ & _ & D & _) _. split; auto.
+    destruct B as [B|B]; [congruence|now exists BoBusy].
+  - apply backoff_kill in B as (sl & -> & M & R & NC). rewrite T, E in R. cbn [bo_ok]. split; [auto|].
+    apply (why_aux c s0 s _ _ A). intros C. contradiction.
 Qed.
 
 Lemma send_tail_bo c s s3 t (pre_evs : list event) :
   aux s3 = aux s -> n_backoffs pre_evs = 0%nat -> tot pre_evs = 0 -> exc pre_evs = 0 -> (forall T E, bo_ok c T E pre_evs) ->
   sres_bo c s (if pending (rep_at s3 t) then
                  match backoff c BoBusy (upd_rep t (set_pending false) s3) with
-                 | Some (s4, e) => SSent s4 t (e :: pre_evs)
-                 | None => SDone RError []
+                 | BoOk s4 e => SSent s4 t (e :: pre_evs)
+                 | BoRefused => SDone RError []
+                 | BoKilled e => SDone RError [e]
                  end
                else SSent s3 t pre_evs).
 Proof.
-  unfold aux. intros H _ T0 E0 OK; injection H as V T E. destruct (pending _).
-  - destruct (backoff c BoBusy _) as [[s4 e]|] eqn:B.
-    + apply backoff_some in B as (sl & -> & M & R & T4 & E4 & V4). cbn in R, T4, E4, V4. rewrite T, E in *.
-      unfold sres_bo, adv. cbn [tot exc bo_ok excluded]. rewrite T0, E0. repeat split; auto; try lia. congruence.
-    + apply backoff_none in B. cbn in B. rewrite T, E in B. split; [exact I|]. intros _. split; auto. now exists BoBusy.
-  - unfold sres_bo, adv. rewrite T0, E0. repeat split; auto; lia.
+  intros A _ T0 E0 OK.
+  assert (TE : bo_total s3 = bo_total s /\ bo_excl s3 = bo_excl s /\ rearmed_v s3 = rearmed_v s) by (unfold aux in A; injection A as V T E _ _; auto).
+  destruct TE as (T & E & V).
+  set (sp := upd_rep t (set_pending false) s3). assert (Ap : aux sp = aux s) by exact A.
+  destruct (pending _).
+  - destruct (backoff c BoBusy sp) as [s4 e| |e] eqn:B.
+    + apply backoff_ok in B as (sl & -> & M & R & T4 & E4 & V4 & C4). cbn in R, T4, E4, V4. rewrite T, E in *.
+      assert (C5 : calm c s -> calm c s4) by (intros C; apply C4; apply (calm_aux c s sp Ap C)).
+      unfold sres_bo, adv. cbn [tot exc bo_ok excluded]. rewrite T0, E0. repeat split; auto; try lia; try congruence; try calmtac.
+    + apply backoff_refused in B. split; [exact I|]. apply (why_aux c sp s _ _ Ap). intros (_ & _ & D & _) _. split; auto.
+      destruct B as [B|B]; [congruence|now exists BoBusy].
+    + apply backoff_kill in B as (sl & -> & M & R & NC). cbn in R. rewrite T, E in R. cbn [sres_bo bo_ok]. split; [auto|].
+      apply (why_aux c sp s _ _ Ap). intros C. contradiction.
+  - pose proof (calm_aux c s s3 A) as C5. unfold sres_bo, adv. rewrite T0, E0. repeat split; auto; try lia; try calmtac.
 Qed.
 
 Lemma sel_phase_bo c s : sres_bo c s (sel_phase c s).
@@ -139,11 +191,11 @@ Proof.
     destruct tg as [t|]; [|apply no_candidate_bo; exact E2].
     destruct (stale _); [apply no_candidate_bo; exact E2|].
     pose proof (send_tail_bo c s (upd_rep t (fun r => set_attempts (S (attempts r)) r) s2) t [] E2 eq_refl eq_refl eq_refl (fun _ _ => I)) as L.
-    destruct (pending _); [destruct (backoff _ _ _) as [[? ?]|]|]; exact L.
+    destruct (pending _); [destruct (backoff _ _ _) as [? ?| |?]|]; exact L.
   - destruct (stale _ || stale _); [apply no_candidate_bo; exact E1|].
     match goal with |- context [pending (rep_at ?s3 ?t)] =>
       pose proof (send_tail_bo c s s3 t [EProxy p] E1 eq_refl eq_refl eq_refl (fun _ _ => I)) as L end.
-    destruct (pending _); [destruct (backoff _ _ _) as [[? ?]|]|]; exact L.
+    destruct (pending _); [destruct (backoff _ _ _) as [? ?| |?]|]; exact L.
   - apply no_candidate_bo. exact E1.
 Qed.
 
@@ -156,20 +208,25 @@ Qed.
 Definition hres_bo (fixed : bool) (c : cfg) (s : state) (h : hres) : Prop :=
   match h with
   | HRetry s' evs => adv c s s' evs /\ (fixed = true -> (unarmed c s' + n_rearms evs <= unarmed c s)%nat)
-  | HDone r evs => evs = [] /\ (r = RError -> spent c (bo_total s) (bo_excl s))
+  | HDone r evs => bo_ok c (bo_total s) (bo_excl s) evs /\ n_rearms evs = 0%nat /\ why c s r evs
   end.
 
-Lemma wb_bo fixed c k s0 r0 s : aux s0 = aux s -> (r0 = RError \/ exists i, r0 = RRegionErr i) ->
-  hres_bo fixed c s (with_backoff c k s0 r0).
+Lemma wb_bo fixed c k s0 r0 s : aux s0 = aux s -> hres_bo fixed c s (with_backoff c k s0 r0).
 Proof.
-  unfold aux. intros H R; injection H as V T E. pose proof (with_backoff_bo c k s0 r0) as W.
+  intros A. assert (TE : bo_total s0 = bo_total s /\ bo_excl s0 = bo_excl s /\ rearmed_v s0 = rearmed_v s) by (unfold aux in A; injection A as V T E _ _; auto).
+  destruct TE as (T & E & V). pose proof (with_backoff_bo c k s0 r0) as W.
   destruct (with_backoff c k s0 r0) as [s' evs|r evs]; unfold hres_bo.
-  - destruct W as ((A1 & A2 & A3) & W2 & W3). unfold adv, unarmed. rewrite T, E in *. rewrite W2, V, W3. repeat split; auto. lia.
-  - destruct W as (-> & -> & W). split; auto. intros _. rewrite T, E in W. now exists k.
+  - destruct W as ((A1 & A2 & A3 & A4) & W2 & W3).
+    assert (C5 : calm c s -> calm c s') by (intros C; apply A4; apply (calm_aux c s s0 A C)).
+    unfold adv, unarmed. rewrite T, E in *. rewrite W2, V, W3. repeat split; auto; try lia; try calmtac.
+  - destruct W as (-> & W1 & W2 & W3). rewrite T, E in W1. split; [auto|]. split; [auto|]. apply (why_aux c s0 s _ _ A W3).
 Qed.
 
 Lemma retry_bo fixed c s s' : aux s' = aux s -> hres_bo fixed c s (HRetry s' []).
-Proof. intros H. split; [now apply adv_nil|]. unfold unarmed, aux in *. injection H as -> _ _. cbn. lia. Qed.
+Proof. intros H. split; [now apply adv_nil|]. unfold unarmed, aux in *. injection H as -> _ _ _ _. cbn. lia. Qed.
+
+Lemma done_bo fixed c s r : r <> RError -> hres_bo fixed c s (HDone r []).
+Proof. intros H. split; [exact I|]. split; [reflexivity|]. intros _ R. contradiction. Qed.
 
 Lemma hint_bo fixed c s t k lim : (fixed = true -> lim = Some (length (c_reps c) - 1)%nat) ->
   hres_bo fixed c s (on_not_leader_hint lim s t k).
@@ -180,11 +237,11 @@ Proof.
   destruct (negb _); [apply retry_bo; reflexivity|].
   set (w := exhausted (rep_at s1 k) max_replica_attempt && match lim with Some m => (nth k (rearmed_v s1) m <? m)%nat | None => true end).
   match goal with |- hres_bo _ _ _ (HRetry ?x ?e) => set (s4 := x) end.
-  assert (T4 : bo_total s4 = bo_total s /\ bo_excl s4 = bo_excl s /\
+  assert (T4 : bo_total s4 = bo_total s /\ bo_excl s4 = bo_excl s /\ dead s4 = dead s /\ killed s4 = killed s /\
                rearmed_v s4 = (match lim with Some _ => if w then upd k S (rearmed_v s) else rearmed_v s | None => rearmed_v s end)).
-  { subst s4. destruct (leader_candidate _); destruct lim; try destruct w; auto. }
-  destruct T4 as (T4 & E4 & V4). split.
-  - unfold adv. rewrite T4, E4. destruct w; cbn; repeat split; lia.
+  { subst s4. destruct (leader_candidate _); destruct lim; try destruct w; auto 6. }
+  destruct T4 as (T4 & E4 & D4 & K4 & V4). split.
+  - unfold adv, calm. rewrite T4, E4, D4, K4. destruct w; cbn; repeat split; auto; try lia; tauto.
   - intros F. pose proof (HL F) as HF. subst lim. unfold unarmed. rewrite V4.
     destruct w eqn:W; unfold n_rearms; cbn [filter is_rearm length]; [|lia].
     subst w. apply andb_prop in W as [_ W]. apply Nat.ltb_lt in W. change (rearmed_v s1) with (rearmed_v s) in W.
@@ -193,59 +250,82 @@ Qed.
 
 Lemma handle_bo fixed c s t o i : hres_bo fixed c s (handle fixed c s t o i).
 Proof.
+  assert (DD : dead s = true -> hres_bo fixed c s (HDone RError [])).
+  { intros D. split; [exact I|]. split; [reflexivity|]. intros (_ & _ & D' & _) _. congruence. }
   destruct o; cbn [handle]; try (apply hint_bo; intros ->; reflexivity); unfold on_send_fail, on_busy; cbv zeta;
-    try (apply retry_bo; reflexivity); try (split; [reflexivity|discriminate]);
-    try (apply wb_bo; [reflexivity|eauto]).
-  all: ifs; try (apply retry_bo; reflexivity); try (split; [reflexivity|discriminate]);
-    try (apply wb_bo; [reflexivity|eauto]).
+    try (apply retry_bo; reflexivity); try (apply done_bo; discriminate);
+    try (apply wb_bo; reflexivity).
+  all: ifs; try (apply DD; first [assumption|reflexivity]); try (apply retry_bo; reflexivity); try (apply done_bo; discriminate);
+    try (apply wb_bo; reflexivity).
 Qed.
 
 Lemma pre_bo fixed c s prev i : hres_bo fixed c s (pre fixed c s prev i).
-Proof. unfold pre. destruct prev as [[t o]|]; [apply handle_bo|apply retry_bo; reflexivity]. Qed.
+Proof.
+  unfold pre. destruct (c_interruptible c && killed s && _) eqn:K.
+  - split; [exact I|]. split; [reflexivity|]. intros (_ & _ & _ & K') _. rewrite K' in K. rewrite andb_false_r in K. discriminate.
+  - destruct prev as [[t o]|]; [apply handle_bo|apply retry_bo; reflexivity].
+Qed.
 
 Lemma after_send_aux s t : aux (after_send s t) = aux s.
 Proof. unfold after_send. destruct (rt_eqb _ _); reflexivity. Qed.
 
+Lemma raise_att_calm c i s : calm c s -> calm c (raise_att c i s).
+Proof. intros (C1 & C2 & C3 & C4). unfold calm, raise_att. cbn. rewrite C1, C2, C3, C4. auto. Qed.
+
 Definition loop_ok (fixed : bool) (c : cfg) (s : state) (x : list event * result) : Prop :=
   bo_ok c (bo_total s) (bo_excl s) (fst x) /\
-  (snd x = RError -> spent c (bo_total s + tot (fst x)) (bo_excl s + exc (fst x))) /\
+  (calm c s -> snd x = RError -> spent c (bo_total s + tot (fst x)) (bo_excl s + exc (fst x))) /\
   (fixed = true -> (n_rearms (fst x) <= unarmed c s)%nat).
 
 Lemma loop_bo fixed c script : forall s prev i, loop_ok fixed c s (loop_gen fixed c script s prev i).
 Proof.
   induction script as [|o rest IH]; intros s prev i; rewrite loop_unfold;
     pose proof (pre_bo fixed c s prev i) as P; destruct (pre fixed c s prev i) as [s1 evs1|r evs1].
-  2,4: (destruct P as [-> P]; unfold loop_ok; cbn [fst snd tot exc bo_ok n_rearms filter length]; rewrite !N.add_0_r;
-        repeat split; auto; intros; lia).
-  all: destruct P as ((T1 & E1 & OK1) & U1); cbv zeta;
+  2,4: (destruct P as (P1 & P2 & P3); unfold loop_ok; cbn [fst snd]; repeat split; auto;
+        [intros C R; destruct (P3 C R) as [-> S]; cbn [tot exc]; now rewrite !N.add_0_r | intros; lia]).
+  all: destruct P as ((T1 & E1 & OK1 & C1) & U1); cbv zeta;
     set (s1' := if (0 <? i)%nat then set_q_retry true s1 else s1);
     assert (A1 : aux s1' = aux s1) by (subst s1'; destruct (0 <? i)%nat; reflexivity);
     pose proof (sel_phase_bo c s1') as Q; pose proof (sel_phase_spec c s1') as Q0;
-    destruct (sel_phase c s1') as [s2 t evs2|r evs2]; unfold aux in A1; injection A1 as V1 T1' E1'; unfold sres_bo in Q.
+    pose proof (calm_aux c s1 s1' A1) as CA;
+    destruct (sel_phase c s1') as [s2 t evs2|r evs2]; unfold aux in A1; injection A1 as V1 T1' E1' _ _; unfold sres_bo in Q.
   (* the selector gave up *)
   2,4: (destruct Q as [Q1 Q2]; destruct Q0 as [_ Q0]; rewrite T1', E1', T1, E1 in *; unfold loop_ok; cbn [fst snd];
         rewrite tot_app, exc_app, n_rearms_app, Q0; repeat split;
         [apply bo_ok_app; assumption
-        | intros R; destruct (Q2 R) as [-> S]; cbn [tot exc]; rewrite !N.add_0_r; exact S
+        | intros C R; destruct (Q2 (CA (C1 C)) R) as [-> S]; cbn [tot exc]; rewrite !N.add_0_r; rewrite <- T1', <- E1'; exact S
         | intros O; specialize (U1 O); unfold unarmed in *; lia]).
   (* an attempt is sent *)
-  all: destruct Q as ((T2 & E2 & OK2) & V2); destruct Q0 as (_ & _ & R2);
+  all: destruct Q as ((T2 & E2 & OK2 & C2) & V2); destruct Q0 as (_ & _ & R2);
     rewrite T1', E1', T1, E1 in *;
-    assert (BASE : forall evs r, loop_ok fixed c (after_send s2 t) (evs, r) ->
+    assert (BASE : forall evs r, loop_ok fixed c (raise_att c i (after_send s2 t)) (evs, r) ->
               loop_ok fixed c s (evs1 ++ evs2 ++ EAtt t (q_rr s2) (q_stale s2) (q_retry s2) :: evs, r)).
-  1,3: (intros evs r (L1 & L2 & L3); cbn [fst snd] in *; pose proof (after_send_aux s2 t) as A3; unfold aux in A3; injection A3 as V3 T3 E3;
+  1,3: (intros evs r (L1 & L2 & L3); cbn [fst snd] in *; pose proof (after_send_aux s2 t) as A3;
+        pose proof (calm_aux c s2 (after_send s2 t) A3) as CA3; unfold aux in A3; injection A3 as V3 T3 E3 _ _;
+        change (bo_total (raise_att c i (after_send s2 t))) with (bo_total (after_send s2 t)) in *;
+        change (bo_excl (raise_att c i (after_send s2 t))) with (bo_excl (after_send s2 t)) in *;
         rewrite T3, E3, T2, E2 in *; unfold loop_ok; cbn [fst snd];
         rewrite !tot_app, !exc_app, !n_rearms_app, R2; cbn [tot exc];
         repeat split;
         [ apply bo_ok_app; [assumption|]; apply bo_ok_app; [assumption|]; cbn [bo_ok]; rewrite ?N.add_assoc in *; exact L1
-        | intros R; specialize (L2 R); rewrite ?N.add_assoc in *; exact L2
-        | intros O; specialize (U1 O); specialize (L3 O); unfold unarmed in *; rewrite V3, V2, V1 in L3; rewrite n_rearms_cons_att; lia ]).
-  - apply (BASE [] (RSuccess i)). unfold loop_ok. cbn. repeat split; auto; try discriminate; intros; lia.
-  - assert (SUCC : loop_ok fixed c s (evs1 ++ evs2 ++ [EAtt t (q_rr s2) (q_stale s2) (q_retry s2)], RSuccess i))
-      by (apply (BASE [] (RSuccess i)); unfold loop_ok; cbn; repeat split; auto; try discriminate; intros; lia).
-    specialize (IH (after_send s2 t) (Some (t, o)) (S i)).
+        | intros C R; specialize (L2 (raise_att_calm c i _ (CA3 (C2 (CA (C1 C))))) R); rewrite ?N.add_assoc in *; exact L2
+        | intros O; specialize (U1 O); specialize (L3 O); unfold unarmed in *;
+          change (rearmed_v (raise_att c i (after_send s2 t))) with (rearmed_v (after_send s2 t)) in L3;
+          rewrite V3, V2, V1 in L3; rewrite n_rearms_cons_att; lia ]).
+  - assert (DD : calm c s -> dead s2 = false) by (intros C; apply (C2 (CA (C1 C)))).
+    apply (BASE [] (if dead s2 then RError else RSuccess i)). unfold loop_ok. cbn. repeat split; auto; try (intros; lia).
+    intros C R. apply raise_att_calm with (i := i) in C. destruct (dead s2) eqn:D; [|discriminate].
+    exfalso. unfold calm, raise_att in C. cbn in C. destruct C as (_ & _ & C & _).
+    change (dead (after_send s2 t)) with (dead s2) in C || (pose proof (after_send_aux s2 t) as X; unfold aux in X; injection X as _ _ _ X _; rewrite X in C).
+    rewrite D in C. discriminate.
+  - assert (SUCC : loop_ok fixed c s (evs1 ++ evs2 ++ [EAtt t (q_rr s2) (q_stale s2) (q_retry s2)], if dead s2 then RError else RSuccess i)).
+    { apply (BASE [] (if dead s2 then RError else RSuccess i)). unfold loop_ok. cbn. repeat split; auto; try (intros; lia).
+      intros C R. destruct (dead s2) eqn:D; [|discriminate].
+      exfalso. destruct C as (_ & _ & C & _). unfold raise_att in C. cbn in C.
+      pose proof (after_send_aux s2 t) as X; unfold aux in X; injection X as _ _ _ X _. rewrite X, D in C. discriminate. }
+    specialize (IH (raise_att c i (after_send s2 t)) (Some (t, if dead s2 then ORpcErr Reachable else o)) (S i)).
     destruct o; try exact SUCC;
-      (destruct (loop_gen fixed c rest (after_send s2 t) _ (S i)) as [evs r]; apply BASE; exact IH).
+      (destruct (loop_gen fixed c rest (raise_att c i (after_send s2 t)) _ (S i)) as [evs r]; apply BASE; exact IH).
 Qed.
 
 (* ---- pure consequences of [bo_ok]: how many back-offs a budget admits ---- *)
@@ -303,13 +383,16 @@ Qed.
 
 Lemma run_error fixed c script rands sleeps evs : run_gen fixed c script rands sleeps = (evs, RError) ->
   (c_read c = true /\ c_val c = false /\ c_store_tp c <> TpTiDB) \/
-  (0 < c_max_sleep c /\ (c_max_sleep c <= tot evs - exc evs \/ (excl_limit <= exc evs /\ c_max_sleep c <= exc evs))).
+  (0 < c_max_sleep c /\ (c_max_sleep c <= tot evs - exc evs \/ (excl_limit <= exc evs /\ c_max_sleep c <= exc evs))) \/
+  c_cancel c <> TNever \/ c_kill c <> TNever.
 Proof.
   intros H. destruct (validation_refuses c) eqn:V.
   - left. unfold validation_refuses in V. apply andb_prop in V as [V V3]. apply andb_prop in V as [V1 V2].
     apply negb_true_iff in V2. apply negb_true_iff in V3. repeat split; auto. intros E; rewrite E in V3; discriminate.
-  - right. pose proof (run_ok fixed c script rands sleeps V) as (_ & L & _). rewrite H in L. cbn [fst snd] in L.
-    specialize (L eq_refl). apply spent_explicit in L. exact L.
+  - right. destruct (c_cancel c) eqn:CC; try (right; left; discriminate). destruct (c_kill c) eqn:CK; try (right; right; discriminate).
+    left. pose proof (run_ok fixed c script rands sleeps V) as (_ & L & _). rewrite H in L. cbn [fst snd] in L.
+    assert (C : calm c (init_state c rands sleeps)) by (unfold calm, init_state; cbn; rewrite CC, CK; auto).
+    specialize (L C eq_refl). apply spent_explicit in L. exact L.
 Qed.
 
 Lemma run_backoffs fixed c script rands sleeps : 0 < c_max_sleep c ->
